@@ -1,7 +1,7 @@
 (* C03 - FASTA headers are truthful witnesses.  Level S: theorems about the specification; the engine
    is tied to witness_ok / entries_unique by the correspondence harness/props/c03.py only. *)
 From MoPep Require Import Model.Base Model.Rule Model.Digest Model.Spec Model.SpecStmt Gen.Bio
-                          Proofs.SpecProofs.
+                          Proofs.SpecProofs Model.W2F Model.SpecAlt Model.SpecAltStmt Proofs.SpecAltProofs.
 Open Scope Z_scope.
 
 (* The C03 decider is the property's statement (Witness): every named index denotes a supplied record,
@@ -22,6 +22,13 @@ Theorem witness_realizable : forall x p ids, witness_ok x p ids = true ->
   exists h, nonempty h = true /\ pairwise false h = true /\ MayProduct x h p.
 Proof. intros x p ids H. apply witness_ok_iff_lemma in H as (_ & H). exists (named x ids). exact H. Qed.
 Print Assumptions witness_realizable.
+
+(* entries that also name generated SECT / W2F identifiers: exactly the named records are applied and the
+   forms used are exactly the kinds named (WitnessFl, Model/SpecAltStmt.v) *)
+Theorem witness_ok_fl_iff : forall x p ids sect w2f,
+  witness_ok_fl x p ids sect w2f = true <-> WitnessFl x p ids sect w2f.
+Proof. exact witness_ok_fl_iff_lemma. Qed.
+Print Assumptions witness_ok_fl_iff.
 
 (* every header entry string occurs at most once *)
 Theorem entries_unique_iff : forall es, entries_unique es = true <-> NoDup es.
